@@ -272,8 +272,8 @@ impl SeqSpec for Seq {
 }
 
 pub fn run(rep: &mut Report) {
-    let q = rep.quick();
-    let dl = lattice::dl(if q { 8 } else { 64 }, true);
+    let deep = !rep.quick();
+    let dl = lattice::dl(if deep { 256 } else { 64 }, true);
     let st = steps();
     rep.bound("DL_size", dl.len() as u64);
     rep.bound("steps", st.len() as u64);
@@ -296,7 +296,7 @@ pub fn run(rep: &mut Report) {
             j_epoch(op, ts, el[(j / m) as usize], st[(j % m) as usize], out);
         });
     }
-    let depth = if q { 2 } else { 3 };
+    let depth = if deep { 4 } else { 3 };
     rep.bound("seq_depth", depth as u64);
     let seq_steps: Vec<i128> = vec![1, 7, -7, NS_S, -3600 * NS_S, NS_DAY, NPC - 1, NPC, NPC + 1, 2 * NPC + 3];
     let inits = vec![0, 1, -1, NPC + 5, -NPC - 5, -NPC / 2, 12345678901234567, -12345678901234567, DMAX - 3, DMIN + 3, 3 * NPC - 1, -3 * NPC + 1];
